@@ -257,7 +257,8 @@ func generateNginxCfg(p NginxCfgParams) (version1.IngressNginxConfig, Warnings) 
 			if p.isMinion && cfgParams.JWTKey != "" {
 				jwtAuth, redirectLoc, warnings := generateJWTConfig(p.ingEx.Ingress, p.ingEx.SecretRefs, &cfgParams, getNameForRedirectLocation(p.ingEx.Ingress))
 				loc.JWTAuth = jwtAuth
-				if redirectLoc != nil {
+				// all paths of a minion share one named redirect location: define it once
+				if redirectLoc != nil && !hasJWTRedirectLocation(server.JWTRedirectLocations, redirectLoc.Name) {
 					server.JWTRedirectLocations = append(server.JWTRedirectLocations, *redirectLoc)
 				}
 				allWarnings.Add(warnings)
@@ -597,6 +598,15 @@ func pathOrDefault(path string) string {
 
 func getNameForUpstream(ing *networking.Ingress, host string, backend *networking.IngressBackend) string {
 	return fmt.Sprintf("%v-%v-%v-%v-%v", ing.Namespace, ing.Name, host, backend.Service.Name, GetBackendPortAsString(backend.Service.Port))
+}
+
+func hasJWTRedirectLocation(locations []version1.JWTRedirectLocation, name string) bool {
+	for _, l := range locations {
+		if l.Name == name {
+			return true
+		}
+	}
+	return false
 }
 
 func getNameForRedirectLocation(ing *networking.Ingress) string {
